@@ -4,7 +4,7 @@
 Require Extraction.
 Require ExtrOcamlBasic.
 From Coq Require Import NArith ZArith List.
-From V9 Require Import Lib.GoSem Lib.Bytes Gen.Consts Log.Ring Codec.Msg Codec.Pack Codec.Unpack Srv.Seq Srv.SeqSpec Recv.Recv Ufs.DirWindow Clnt.IO Srv.Conc Clnt.Model.
+From V9 Require Import Lib.GoSem Lib.Bytes Gen.Consts Log.Ring Codec.Msg Codec.Pack Codec.Unpack Srv.Seq Srv.SeqSpec Recv.Recv Ufs.DirWindow Clnt.IO Srv.Conc Clnt.Model Ufs.Path Ufs.Handlers.
 
 Extraction Language OCaml.
 Extraction "model.ml"
@@ -18,6 +18,8 @@ Extraction "model.ml"
   SeqSpec.spec_step SeqSpec.vget SeqSpec.rules_ok SeqSpec.fid_ok SeqSpec.is_valid
   Recv.srv_run Recv.clnt_run Recv.srv_frames Recv.clnt_frames
   DirWindow.dir_window DirWindow.listing DirWindow.readdir_chunks IO.frun
+  Path.attach_path Path.ufs_walk Path.create_path Path.rename_dest Path.symlink_ok Path.symlink_resolves Path.clean Path.split_slash Path.fwalk
+  Handlers.dir2qidtype Handlers.dir2npmode Handlers.stat_mtime Handlers.stat_length Handlers.create_plan Handlers.wstat_plan Handlers.omode2uflags
   Conc.step Conc.run Conc.init Model.crun Model.cinit_n Model.cstep
   Consts.c_Eunknownfid_text Consts.c_Einuse_text
   Consts.c_NOTAG Consts.c_NOFID Consts.c_NOUID Consts.c_IOHDRSZ.
